@@ -291,8 +291,15 @@ func (p *Parser) parseText() (secs2.Item, error) {
 	return item, nil
 }
 
-//nolint:cyclop
 func (p *Parser) parseItem() (secs2.Item, error) {
+	return p.parseItemAt(0)
+}
+
+// parseItemAt parses one data item whose enclosing lists are depth levels deep. depth is
+// threaded through parseList so that nesting is bounded (see parseList).
+//
+//nolint:cyclop
+func (p *Parser) parseItemAt(depth int) (secs2.Item, error) {
 	ch := p.nextNonSpaceRune()
 	if ch != '<' {
 		return nil, p.errf("expected '<'")
@@ -313,7 +320,7 @@ func (p *Parser) parseItem() (secs2.Item, error) {
 	// parse data item body
 	switch itemType {
 	case secs2.ListFormatCode:
-		item, err = p.parseList(maxSize)
+		item, err = p.parseList(maxSize, depth+1)
 	case secs2.ASCIIFormatCode:
 		if p.strict {
 			item, err = p.parseASCIIStrict(maxSize)
@@ -360,13 +367,21 @@ func (p *Parser) parseItem() (secs2.Item, error) {
 	return item, nil
 }
 
-func (p *Parser) parseList(size int) (secs2.Item, error) {
+// parseList parses the children of a list item nested depth levels deep (1 for a top-level
+// list). Nesting is capped at secs2.MaxListDepth, the same limit the binary decoder applies:
+// without a cap the parseItemAt/parseList recursion grows the stack by one frame pair per
+// "<L", and a few megabytes of input end in a fatal stack overflow.
+func (p *Parser) parseList(size, depth int) (secs2.Item, error) {
+	if depth > secs2.MaxListDepth {
+		return nil, p.errf("list nesting depth exceeds maximum allowed: %d", secs2.MaxListDepth)
+	}
+
 	childItems := make([]secs2.Item, 0, p.capHint(size))
 
 	for {
 		switch ch := p.peekNonSpaceRune(); ch {
 		case '<':
-			item, err := p.parseItem()
+			item, err := p.parseItemAt(depth)
 			if err != nil {
 				return nil, err
 			}
